@@ -226,5 +226,12 @@ func (m *monC10) OnStep(r *Runner, st *Step) {
 	if want == nil {
 		want = new(big.Rat)
 	}
+	for _, d := range post.AssetOrder {
+		// the asset's share total still counts a validator record that was deleted when x/staking removed the
+		// validator (open finding): the bonded validators' fractions of it no longer add up to one
+		if a := post.Assets[d]; r.StrandedDenoms[d] && a.RewardWeight.IsPositive() && !post.Time.Before(a.RewardStartTime) {
+			why = "shares-of-validator-removed-by-staking"
+		}
+	}
 	r.Violate("C10.a", "off-target:"+why, fmt.Sprintf("after a block with a %s change validator %s carries %s alliance-minted stake, target %s (native bonded %s)", why, short(worstV), rstr(post.ModuleStake(worstV)), rstr(want), rstr(nativeBonded(post))))
 }
